@@ -30,7 +30,7 @@ QUICK_RUNS = 8000
 THOROUGH_RUNS = 500_000
 EXPECT_PROBES = ["replacement", "expiry", "bounds_change", "same_priority_actors", "exclusion_bigger_than_inclusion",
                  "actor_variant", "expiry_via_timer", "two_component_groups", "identical_resend", "non_default_max_age",
-                 "bounds_update_checked_at_actor_level"]
+                 "bounds_update_checked_at_actor_level", "inverted_bounds"]
 
 IDS = frozenset({8, 18})
 IDS2 = frozenset({28, 38})
@@ -73,7 +73,9 @@ def scenario_object(sim: Sim) -> None:
         op = ch.weighted("op", [6, 2, 1, 2, 2])
         if op == 0:
             a = actors[ch.draw("actor", len(actors))]
-            p = pm.gen_proposal(ch, a, sb, list(live.values()), now)
+            p = pm.gen_proposal(ch, a, sb, list(live.values()), now, inverted=True)
+            if p["lower"] is not None and p["upper"] is not None and p["lower"] > p["upper"]:
+                sim.probe("inverted_bounds")
             if ch.chance("resend_identical", 0.1) and (a["prio"], a["name"]) in live:
                 p = dict(live[(a["prio"], a["name"])], t=now)
                 sim.probe("identical_resend")
@@ -200,7 +202,8 @@ def scenario_actor(sim: Sim) -> None:
             if op == 0:
                 a = actors[ch.draw("actor", len(actors))]
                 live_now = [p for p in st["sent"].values()]
-                p = pm.gen_proposal(ch, a, st["sb_since"][-1] if st["sb_since"] else st["sb_idle"], live_now, sim.loop.time())
+                p = pm.gen_proposal(ch, a, st["sb_since"][-1] if st["sb_since"] else st["sb_idle"], live_now, sim.loop.time(),
+                                    inverted=True)
                 if (a["prio"], a["name"]) in st["sent"]:
                     sim.probe("replacement")
                     sim.nontrivial = True
